@@ -176,9 +176,11 @@ Definition ok_fterm (ns : nsdict) (pd : pdict) (f : fterm) : bool :=
 
 Definition is_wild (f : fterm) : bool := match f with FWild => true | _ => false end.
 
-(** the text of a SPARQL selector as the parser needs it *)
+(** the text of a SPARQL selector as the parser needs it: where the parser
+    removes every occurrence of the keyword (C10-F10: [str.replace] without a
+    count) the query must not hold the keyword itself *)
 Definition ok_query (wf : str -> bool) (q : str) : bool :=
-  nochar (ascii_of_nat 10) q && negb (contains c_sel_sparql_kw q) &&
+  nochar (ascii_of_nat 10) q && (c_sel_sparql_strip_once || negb (contains c_sel_sparql_kw q)) &&
   wf q &&
   (let head := slice_to q (find (Str "{") q) in
    contains (Str "select") (lower head) && Nat.eqb (count_char "?"%char head) 1).
@@ -314,6 +316,19 @@ Definition rc_prefix_in_local (tg : target) : bool :=
                                    | SelNode r => ref_repeats_prefix r
                                    | SelFocusSubj a b | SelFocusObj a b => fterm_repeats_prefix a || fterm_repeats_prefix b
                                    | SelSparql _ => false
+                                   end) its
+  | None => false
+  end.
+
+(** F10: the query of a SPARQL selector holds the keyword [SPARQL] (inside an
+    IRI, a variable name, a literal), and the parser removes every occurrence
+    of it (no root cause once only the leading keyword is removed) *)
+Definition rc_sparql_kw_in_query (tg : target) : bool :=
+  negb c_sel_sparql_strip_once &&
+  match t_items tg with
+  | Some its => existsb (fun it => match it_sel it with
+                                   | SelSparql q => contains c_sel_sparql_kw q
+                                   | _ => false
                                    end) its
   | None => false
   end.
